@@ -38,12 +38,11 @@ def bb_verdicts(ctx, drv, lines, path):
         if t[0] in ("ok", "skip", "MISMATCH") and len(t) >= 4:
             verd.append((t[0], t[1], t[2], t[3], t[4] if len(t) > 4 else ""))
         elif t[0] == "stats":
-            for kv in l.split()[1:]:
+            head, _, sizes = l.partition(" tree_sizes=")
+            for kv in head.split()[1:]:
                 k, _, v = kv.partition("=")
-                if k != "tree_sizes":
-                    stats[k] = int(v)
-            if "tree_sizes=" in l:
-                stats["tree_sizes"] = {a.split(":")[0]: int(a.split(":")[1]) for a in l.split("tree_sizes=")[1].split() if ":" in a}
+                stats[k] = int(v)
+            stats["tree_sizes"] = {a.split(":")[0]: int(a.split(":")[1]) for a in sizes.split() if ":" in a}
     return verd, stats
 
 
